@@ -328,6 +328,8 @@ def main():
         raise SystemExit("/repo has uncommitted changes:\n" + dirty)
     sel = [mu for mu in M if not args or any(a in mu["name"] for a in args)]
     rows = []
+    # evidence written while a mutant is applied must never be committed: keep the real files aside
+    sh("rm -rf /tmp/evidence_backup && cp -r %s/evidence /tmp/evidence_backup" % VERIF)
     for mu in sel:
         try:
             apply(mu)
@@ -348,6 +350,7 @@ def main():
             print(mu["name"], res, tests, flush=True)
         finally:
             revert()
+    sh("rm -rf %s/evidence && mv /tmp/evidence_backup %s/evidence" % (VERIF, VERIF))
     with open(os.path.join(VERIF, "out", "mutants.log"), "a") as f:
         for r in rows:
             f.write(json.dumps(r) + "\n")
